@@ -125,7 +125,8 @@ def load_corpus(pid):
 def run(tier, seed):
     ck = vlib.Check(PID, tier, seed, level="translation_validation")
     ok_obl = ck.obligations(PROP)
-    gvh, err = ck.build_gvh()
+    ov = vlib.os.environ.get("VERIF_OVERLAY")      # mutation experiments: go build -overlay
+    gvh, err = ck.build_gvh(overlay=ov, name=("gvh_verif_mut" if ov else None))
     if gvh is None:
         ck.violation("harness does not build against /repo", {"kind": "build", "stderr": err[-3000:]}, no_input=True)
         return ck.finish("n/a", TRUSTED, [])
